@@ -616,7 +616,7 @@ class Gen:
 
 
 # ------------------------------------------------------------------ C03: fold sites x routings (AST form)
-ROUTINGS = ("literal", "constvar", "after", "untaken", "taken", "loop2", "loop0", "fn_called", "fn_uncalled", "sensor")
+ROUTINGS = ("literal", "constvar", "after", "untaken", "taken", "loop2", "loop0", "fn_called", "fn_uncalled", "sensor", "loopjump")
 
 
 def route(routing: str, name: str, v: int, tag: str):
@@ -638,6 +638,8 @@ def route(routing: str, name: str, v: int, tag: str):
         return [ASSIGN(name, I(v - 2)), FOR(f"lk_{tag}", I(2), [AUG(name, "+", I(1))])], V(name), [], {}, []
     if routing == "loop0":
         return [ASSIGN(name, I(v)), FOR(f"lk_{tag}", AREAD(), [AUG(name, "+", I(1))])], V(name), [], {}, [0]
+    if routing == "loopjump":     # a constant-count loop that leaves before it re-binds the name
+        return [ASSIGN(name, I(v)), FOR(f"lk_{tag}", I(2), [IF([(CMP(AREAD(), (">", I(0))), [BREAK])]), ASSIGN(name, I(other))])], V(name), [], {}, [1]
     if routing == "fn_called":
         return [ASSIGN(name, I(other)), EXPR(CALL(f"set_{tag}"))], V(name), [], {f"set_{tag}": DEF([], [ASSIGN(name, I(v))], [name])}, []
     if routing == "fn_uncalled":
